@@ -59,7 +59,7 @@ func c03(c *ctx) {
 	for _, sz := range []int{2, 3, 5, 8, 13, 21} {
 		cfgs = append(cfgs, config{name: fmt.Sprintf("size%d", sz), v: vPlain, memo: sz%2 == 1, size: sz})
 	}
-	f := &family{c: c, tag: "c03", configs: cfgs, noexec: true, history: []string{"memo", "both"}, pairs: []string{"memo"}, retries: []string{"memo", "nomemo"}}
+	f := &family{c: c, tag: "c03", configs: cfgs, noexec: true, history: []string{"memo", "both"}, pairs: []string{"memo"}, retries: []string{"memo", "nomemo"}, reinit: true}
 	f.judge = func(cs *gcase, e entry, it *ref.Interp, refOK bool, refEnd int, res map[string]*corpus.Res) {
 		covAccumulate(c, it)
 		id := report.Hash(cs.text, fmt.Sprint(e.rule), e.input)
@@ -119,7 +119,7 @@ func c03(c *ctx) {
 func c04(c *ctx) {
 	cases := backtrackCases(c, tierN(c, 240, 5000), 16, false, false)
 	cfgs := []config{{name: "plain", v: vPlain, memo: true}, {name: "inline", v: vInline, memo: true}, {name: "nomemo", v: vPlain}, {name: "switch", v: vSwitch, memo: true}, {name: "treefirst", v: vPlain, memo: true, treeFirst: true}}
-	f := &family{c: c, tag: "c04", configs: cfgs, history: []string{"plain", "switch"}}
+	f := &family{c: c, tag: "c04", configs: cfgs, history: []string{"plain", "switch"}, reinit: true}
 	f.judge = func(cs *gcase, e entry, it *ref.Interp, refOK bool, refEnd int, res map[string]*corpus.Res) {
 		covAccumulate(c, it)
 		id := report.Hash(cs.text, fmt.Sprint(e.rule), e.input)
@@ -190,7 +190,7 @@ func c05(c *ctx) {
 		cases = append(cases, cs)
 	}
 	cfgs := []config{{name: "plain", v: vPlain, memo: true}, {name: "nomemo", v: vPlain}}
-	f := &family{c: c, tag: "c05", configs: cfgs, stdout: true, noexec: true, pairs: []string{"plain"}, history: []string{"plain"}}
+	f := &family{c: c, tag: "c05", configs: cfgs, stdout: true, noexec: true, pairs: []string{"plain"}, history: []string{"plain"}, reinit: true}
 	f.judge = func(cs *gcase, e entry, it *ref.Interp, refOK bool, refEnd int, res map[string]*corpus.Res) {
 		id := report.Hash(cs.text, fmt.Sprint(e.rule), e.input)
 		wantShape, wantText := it.TreeShape(), it.TreeString()
